@@ -65,7 +65,7 @@ def calendar_years():
 
 
 def bounds(tier, seed):
-    return {"files": FILES, "years": calendar_years(), "times": "every minute" if tier == "thorough" else "breakpoints +-1s +-1min, hourly, 23:59:59", "vector_periods": [1, 5, 15, 60], "vector_lengths": [1, 13, 300]}
+    return {"files": FILES, "years": calendar_years(), "times": "every minute" if tier == "thorough" else "breakpoints +-1s +-1min, hourly, 23:59:59", "vector_periods": [1, 5, 15, 60, 1440, 1500, 2880], "vector_lengths": [1, 13, 300]}
 
 
 def space(tier, seed):
@@ -240,8 +240,8 @@ def run_vector(item, only=None):
             for hh, mm, ss in ((23, 50, 0), (0, 0, 0), (7, 59, 30), (15, 45, 0)):
                 starts.append(base.replace(hour=hh, minute=mm, second=ss))
     for st in starts:
-        for period in (1, 5, 15, 60):
-            for length in (1, 13, 300):
+        for period in (1, 5, 15, 60, 1440, 1500, 2880):
+            for length in (1, 13, 300) if period < 1440 else (1, 9):
                 ctx = {"start": st.isoformat(), "period": period, "length": length}
                 if only is not None and only != ctx:
                     continue
@@ -276,6 +276,7 @@ class PriceProbe(S.Scripted):
         for n in (1, 4):
             rec["prices_%d" % n] = list(self.interface.get_prices(n))
         rec["prices_at_2"] = list(self.interface.get_prices(3, start=2))
+        rec["prices_at_0"] = list(self.interface.get_prices(2, start=0))
         rec["dc"] = self.interface.get_demand_charge()
         rec["dc_at_0"] = self.interface.get_demand_charge(start=0)
         self.log.append(rec)
@@ -340,6 +341,9 @@ def run_sim(item, only=None):
                     break
                 if r["prices_at_2"] != [P(2 + k) for k in range(3)]:
                     rep("interface:get_prices:start", "%s: get_prices(3, start=2) = %s, expected %s" % (f, r["prices_at_2"], [P(2 + k) for k in range(3)]), r["prices_at_2"], None, ctx)
+                    break
+                if r["prices_at_0"] != [P(0), P(1)]:
+                    rep("interface:get_prices:start", "%s: at iteration %d get_prices(2, start=0) = %s, expected %s" % (f, t, r["prices_at_0"], [P(0), P(1)]), r["prices_at_0"], None, ctx)
                     break
                 if r["dc"] != D(t) or r["dc_at_0"] != D(0):
                     rep("interface:get_demand_charge", "%s: get_demand_charge() at iteration %d = %r, expected %r" % (f, t, r["dc"], D(t)), r["dc"], D(t), ctx)
